@@ -8,7 +8,7 @@ Import ListNotations.
 Definition err_eqb (a b : err) : bool :=
   match a, b with
   | EIndex, EIndex | EValue, EValue | EType, EType | EZeroDiv, EZeroDiv
-  | EKey, EKey | ENotImpl, ENotImpl | EConv, EConv | EUnmodelled, EUnmodelled => true
+  | EKey, EKey | ENotImpl, ENotImpl | EConv, EConv | EAttr, EAttr | EUnmodelled, EUnmodelled => true
   | _, _ => false
   end.
 
@@ -141,3 +141,42 @@ Definition check_evalq (c : evalq_case) : bool :=
       end
   | _ => false
   end.
+
+(* ---------- the text path (C02/Text.v) ---------- *)
+From Coq Require Import String.
+From T4V Require Import C02.Text.
+
+(* (h) surfacecard.split: the four groups or None *)
+Definition split_case : Type := (string * option (string * string * string * string))%type.
+Definition check_split (c : split_case) : bool :=
+  option_eqb (fun a b => let '(a1, a2, a3, a4) := a in let '(b1, b2, b3, b4) := b in
+                         String.eqb a1 b1 && String.eqb a2 b2 && String.eqb a3 b3 && String.eqb a4 b4)
+             (split_surface (fst c)) (snd c).
+
+(* (i) to_float on one token: the value (to 2^-49 relative: the model computes
+   mantissa and power of ten separately) or ValueError *)
+Definition tofloat_case : Type := (string * option float)%type.
+Definition check_tofloat (c : tofloat_case) : bool :=
+  match to_float FS (fst c), snd c with
+  | Ok v, Some w => f_close 0x1p-49 v w
+  | Err EValue, None => true
+  | _, _ => false
+  end.
+
+(* (j) get_surfaces on one card *)
+Definition parse_out : Type := (string * N * string * string * list float)%type.
+Definition parse_case : Type := (string * res parse_out)%type.
+Definition check_parse (c : parse_case) : bool :=
+  res_eqb (fun a b => let '(a1, a2, a3, a4, a5) := a in let '(b1, b2, b3, b4, b5) := b in
+                      String.eqb a1 b1 && N.eqb a2 b2 && String.eqb a3 b3 && String.eqb a4 b4
+                      && floats_eqb a5 b5)
+          (parse_surface_card FS (fst c)) (snd c).
+
+(* (k) the card text through get_surfaces, to_surfaces_mcnp, convert_mcnp_surface *)
+Definition textcard_case : Type := (string * res (coll (T:=float)))%type.
+Definition check_textcard (c : textcard_case) : bool :=
+  res_eqb coll_eqb (convert_text FS (fst c)) (snd c).
+
+(* (l) Card.content() *)
+Definition content_case : Type := (list string * string)%type.
+Definition check_content (c : content_case) : bool := String.eqb (content (fst c)) (snd c).
